@@ -1,10 +1,5 @@
-TEXT = {
- "C16": dict(
-  level="Kernel-checked theorems about an executable Lean model of cache/lru (index + recency list + byte counter): the coherence invariant holds in every reachable state for every operation sequence and capacity (C16_state_invariant), the model refines a plain recency-ordered association list (C16_refines_spec, C16_lru_order, C16_get_after_put/_del), and for every interleaving of any number of threads the mutex serialises calls (C16_linearizable via LockObj.lock_serializes). The model is tied to /repo on every run by regenerated source facts (all shared accesses inside the critical section: C16_source_shape is re-proved against Gen/Lru.lean) and by a differential run of the real cache against model and spec on random sequential histories, exhaustively enumerated 2-3 thread schedules through the verif yield hooks, random longer schedules and free-running goroutines.",
-  ref="DESIGN.md section 7 C16",
-  note="Trusted: Lean kernel + propext/Classical.choice/Quot.sound; extractor (syntactic lock-region facts); harness agreement on generated histories; sync.Mutex/sync.Map atomicity; the interleaving theorem treats the critical section as an arbitrary sequence of micro-steps under the lock, it does not model the Go memory model.",
-  technique="Lean 4 proof (invariant induction + refinement + lock-serialisation theorem) with regenerated source facts and differential correspondence"),
-}
-# properties not yet claimed by a check (kept current as checks are added)
+from props import PROPS
+TEXT = {p: dict(level=c["level"], ref=c["ref"], note=c["note"], technique=c["technique"]) for p, c in PROPS.items()}
+# Properties not claimed by a check, with the reason (kept current as checks are added).
 NOT_YET = {p: "check not built yet in this session; see DESIGN.md section 11 for the order of work" for p in
            ["C%02d" % i for i in range(1, 20)]}
